@@ -30,6 +30,10 @@ enum verif_evt_kind { EV_LOAD = 1, EV_STORE, EV_XCHG, EV_CMPXCHG, EV_ADDRET, EV_
 #ifndef VERIF_ENV
 #define VERIF_ENV()			((void) 0)
 #endif
+/* called after every compare-and-swap with the observed value (ghost bookkeeping of retry variants) */
+#ifndef VERIF_CAS_RESULT
+#define VERIF_CAS_RESULT(addr, expected, observed)	((void) 0)
+#endif
 #ifndef VERIF_LOAD_RESULT
 #define VERIF_LOAD_RESULT(addr)		(*(addr))
 #endif
@@ -93,6 +97,7 @@ enum verif_evt_kind { EV_LOAD = 1, EV_STORE, EV_XCHG, EV_CMPXCHG, EV_ADDRET, EV_
 			VERIF_STORE_HOOK(_va, _vnew);				\
 			*_va = _vnew;						\
 		}								\
+		VERIF_CAS_RESULT(_va, _vold, _vo);				\
 		_vo;								\
 	})
 #endif
